@@ -139,3 +139,38 @@ PROPS['C04'] = dict(
     must_observe={'live reference reads': lambda agg, d: agg['counters'].get('live_reference_reads', 0) > 0,
                   'states with recycled slots': lambda agg, d: agg['counters'].get('states_with_free_slots', 0) > 0},
 )
+
+
+# ---------------------------------------------------------------- C05
+def c05_jobs(tier):
+    return [
+        Job('hist-default', 'c05', 'hist', q(tier, 5000, 100000), leaks=True, timeout=q(tier, 900, 10000)),
+        Job('hist-tiny-pools', 'c05', 'hist', q(tier, 3000, 60000), defines=TINY[0], leaks=True, timeout=q(tier, 900, 10000)),
+        Job('hist-1byte-ids', 'c05', 'hist', q(tier, 3000, 60000), defines=TINY[1], leaks=True, timeout=q(tier, 900, 10000)),
+        Job('deser-default', 'c05', 'deser', q(tier, 20000, 400000), leaks=True, timeout=q(tier, 900, 10000)),
+        Job('deser-tiny-pools', 'c05', 'deser', q(tier, 15000, 300000), defines=TINY[0], leaks=True, timeout=q(tier, 900, 10000)),
+    ]
+
+
+PROPS['C05'] = dict(
+    level='fault_enumeration',
+    rule='scenario = alias-free API history (4..30 steps, 1-2 documents on one instrumented allocator) or one deserialization (JSON/MessagePack, optional filter, dirty destination). '
+         'Each scenario is run fault-free to count N failable allocator calls (allocate + growing reallocate), then for EVERY k in 1..N (even sample of 60/120 positions above that): '
+         'single failure at k, every call from k on failing, plus 4 random multi-failure subsets (5% and 30%). Per step: the operation during which null was returned must report '
+         '(false / unbound / NoMemory) and set overflowed(); the document must stay a well-formed tree (inspector: no slot both linked and free, members have key+value) whose values '
+         'outside the modified path equal the pre-state; removals stay exact. Then clear() -> ledger empty -> failures off -> 25 fresh steps must match the model -> destruction -> ledger empty. '
+         'non-trivial = faulted run in which the injected failure was actually reached (distinct by scenario and schedule)',
+    jobs=c05_jobs,
+    min_evaluations=dict(quick=20000, thorough=500000),
+    technique='fault injection at the allocator boundary with exhaustive failure positions per scenario; model-based monitor (pre/post extraction through the public API) plus inspector invariants, under ASan+UBSan+LSan',
+    level_text='Fault enumeration: failure positions are exhaustive per scenario (every failable allocator call), scenarios are sampled from the history and input generators.',
+    level_note='Shrinking reallocations are never failed (the library, like the property, assumes they cannot fail). After a failure the model is resynchronised with the document (its content may legitimately be partial); only well-formedness and the untouched parts are judged until clear().',
+    assumptions=COMMON_ASSUME + ['orphan string nodes (key saved, member slots not allocated) are tolerated until clear(): reference counts may exceed the users after a failure',
+                                 'for syntactically invalid inputs any error code counts as reporting the failure'],
+    extra_coverage={'faulted_runs': lambda agg, d: agg['counters'].get('faulted_runs', 0),
+                    'faulted_runs_reaching_failure': lambda agg, d: agg['counters'].get('faulted_runs_reaching_failure', 0),
+                    'scenarios': lambda agg, d: agg['counters'].get('scenarios', 0),
+                    'scenarios_with_every_position_enumerated': lambda agg, d: agg['counters'].get('scenarios_with_every_position_enumerated', 0)},
+    must_observe={'failures reached': lambda agg, d: agg['counters'].get('faulted_runs_reaching_failure', 0) > 0,
+                  'runs continuing after a failure': lambda agg, d: agg['counters'].get('faulted_runs_continuing_after_failure', 0) > 0},
+)
